@@ -84,3 +84,69 @@ def bump():
 def read_counter():
     if COUNTER % 2:
         raise RuntimeError("odd")
+
+
+# ---- functions that run into the executor's time-out ----------------------------------------------
+# Straight-line code on purpose: after the entry of the function no instrumentation probe fires, so the
+# condemned thread really performs the late action while the executor waits in its grace join.
+import time  # noqa: E402
+
+
+def t_log_late(delay, level):
+    time.sleep(delay)
+    logging.disable(level)
+
+
+def t_log_early(level, delay):
+    logging.disable(level)
+    time.sleep(delay)
+
+
+def t_log_both(first, delay, second):
+    logging.disable(first)
+    time.sleep(delay)
+    logging.disable(second)
+
+
+def t_close_out_late(delay):
+    time.sleep(delay)
+    sys.stdout.close()
+
+
+def t_close_err_early(delay):
+    sys.stderr.close()
+    time.sleep(delay)
+
+
+def t_set_out_late(delay):
+    time.sleep(delay)
+    sys.stdout = io.StringIO()
+
+
+def t_close_in_late(delay):
+    time.sleep(delay)
+    sys.stdin.close()
+
+
+def t_os_close_late(delay, fd):
+    time.sleep(delay)
+    os.close(fd)
+
+
+def t_os_close_early(fd, delay):
+    os.close(fd)
+    time.sleep(delay)
+
+
+def t_seed_late(delay, x):
+    time.sleep(delay)
+    random.seed(x)
+
+
+def t_mixed(level, x, delay, fd, level2):
+    logging.disable(level)
+    random.seed(x)
+    time.sleep(delay)
+    os.close(fd)
+    sys.stdout.close()
+    logging.disable(level2)
